@@ -191,9 +191,9 @@ pub fn generate(seed: u64, tier: Tier) -> Case {
     // A module whose file name is unusual (dots only, a blank, punctuation, non-ASCII, a digit
     // first), at any depth; the ones pyxis accepts must land at their mirrored path like any
     // other (the rejected ones are vacuous here and C12's business).
-    if rng.chance(1, 10) {
+    for _ in 0..(if rng.chance(1, 10) { rng.range(1, 2) } else { 0 }) {
         let stem = *rng.pick(&[
-            "..", "...", "a..b", ".a", "a b", " ", "-", "a-b", "\u{e9}t\u{e9}", "m\u{b2}", "3d", "_", "x.y.z", "..a",
+            ".", "..", "...", "a..b", ".a", "a b", " ", "-", "a-b", "\u{e9}t\u{e9}", "m\u{b2}", "3d", "_", "x.y.z", "..a", "a.",
         ]);
         let dir = match rng.below(4) {
             0 => String::new(),
